@@ -50,3 +50,4 @@ pub fn limits_payload(n: usize, kind: &str) -> String {
 	debug_assert_eq!(serde_json::to_string(&s).unwrap().len(), n.max(2));
 	s
 }
+pub mod ws_connect;
